@@ -100,6 +100,12 @@ func RegisterTypeMigration(previousPkgPath, previousTypeName string, newType err
 	if f, ok := backwardRegistry[newKey]; ok {
 		panic(fmt.Errorf("migration to type %q already registered (from %q)", newKey, f))
 	}
+	// If the previous name is itself the target of an earlier
+	// migration, keep pointing at the original name so that the result
+	// does not depend on the order of registration.
+	if f, ok := backwardRegistry[prevKey]; ok {
+		prevKey = f
+	}
 	backwardRegistry[newKey] = prevKey
 	// If any other key was registered as a migration from newKey,
 	// we'll forward those as well.
